@@ -189,11 +189,12 @@ def enumerate_ops(src: str, *, nk=3, nks=2, forms=('src', 'ast', 'fst'), opts=({
         elif typ in OP_TYPES and want('replace_op'):
             for text, mode, form in _codes(K_ONE, typ, nk, ('src', 'fst')):
                 yield {'op': 'replace', 'path': p, 'code': [text, mode, form], 'opts': {}}
-    if 'par' in extra:  # explicit (un)parenthesization of expression / pattern nodes
+    if 'par' in extra or 'par-lite' in extra:  # explicit (un)parenthesization of expression / pattern nodes
         for path, parent, field, idx, child in O.iter_slots(tree, ('expr', 'pattern')):
             p = [list(x) for x in path]
             yield {'op': 'par', 'path': p, 'force': False}
-            yield {'op': 'par', 'path': p, 'force': True}
+            if 'par' in extra:
+                yield {'op': 'par', 'path': p, 'force': True}
             yield {'op': 'unpar', 'path': p}
     # list fields (also the empty ones)
     for path, node in O.iter_nodes(tree):
